@@ -75,13 +75,23 @@ def make_body(kind, what):
             c = [V["tx"], V["ty"], V["tz"]]
             s = {"Circle": lambda: S.Circle(V["a"], c), "Sphere": lambda: S.Sphere(V["a"], c), "Ellipse": lambda: S.Ellipse(V["a"], V["b"], c),
                  "Ellipsoid": lambda: S.Ellipsoid(V["a"], V["b"], V["c"], c)}[kind]()
+        elif kind.startswith("Polygon:"):
+            # xy-plane polygons whose stored normal differs from the one the constructor would derive from the first three vertices
+            import coxeter.shapes as S
+
+            var = kind.split(":")[1]
+            pts = {"cw_plus_z": [(0, 0), (0, 2), (3, 2), (3, 0)], "reflex_second_plus_z": [(3, 2), (2, 0), (3, -2), (0, 0)],
+                   "ccw_minus_z": [(0, 0), (3, 0), (3, 2), (0, 2)]}[var]
+            nz = -1 if var.endswith("minus_z") else 1
+            P = [[V["tx"] + x, V["ty"] + y, V["tz"]] for x, y in pts]
+            s = S.Polygon(H.arr(P), normal=[H.num(0), H.num(0), H.num(nz)], test_simple=False)
         else:
             s = C16._mk(kind, H, V)
         a0 = _attrs(s)
         if what == "gsd":
             spec = s.gsd_shape_spec
             r = from_gsd_type_shapes(spec, dimensions=DIM.get(kind, 3))
-            H.claim("gsd.same_class", isinstance(r, type(s)) and (type(r).__name__ == kind or kind == "Polygon"))
+            H.claim("gsd.same_class", isinstance(r, type(s)) and (type(r).__name__ == kind or kind.startswith("Polygon")))
             a1 = _attrs(r)
             H.claim("gsd.same_attributes", sorted(a0) == sorted(a1))
             for k in a0:
@@ -103,7 +113,7 @@ def make_body(kind, what):
                 if ctx is not None:
                     ctx.tokens = None
             r = eval(text, ns)  # noqa: S307 - the property is about eval(repr(shape))
-            H.claim("repr.same_or_base_class", isinstance(s, type(r)) or type(r).__name__ == kind)
+            H.claim("repr.same_or_base_class", isinstance(s, type(r)) or type(r).__name__ == kind.split(":")[0])
             a1 = _attrs(r)
             for k in a0:
                 if k not in a1:
@@ -118,6 +128,7 @@ def make_body(kind, what):
             core1 = getattr(r, "polygon", None) or r
             if hasattr(core0, "_normal"):
                 H.claim_all_eq("repr.same_normal", core1.normal, core0.normal)
+                H.claim_eq("repr.same_signed_area", core1.signed_area, core0.signed_area)
         elif what == "hoomd":
             core = getattr(s, "polygon", None) or getattr(s, "polyhedron", None) or s
             verts0 = [list(r) for r in core.vertices] if hasattr(core, "_vertices") else None
@@ -177,7 +188,7 @@ def _ob(kind, what, tier):
     import coxeter.shapes as S
     from symx.loader import functions_encoded
 
-    cls = getattr(S, kind)
+    cls = getattr(S, kind.split(":")[0])
     fl = [shape_getters.from_gsd_type_shapes, cls.gsd_shape_spec.fget] if what == "gsd" else [cls.__repr__] if what == "repr" else [cls.to_hoomd]
     first = dict(a=F(3, 2), b=F(2), c=F(5, 4), tx=F(7, 3), ty=F(-5, 2), tz=F(11, 4))
     first = {k: v for k, v in first.items() if k in names}
@@ -196,6 +207,8 @@ def obligations(tier, seed):
         obs.append(_ob(kind, "repr", tier))
         if hasattr(getattr(S, kind), "to_hoomd"):
             obs.append(_ob(kind, "hoomd", tier))
+    for var in ("cw_plus_z", "reflex_second_plus_z", "ccw_minus_z"):
+        obs.append(_ob("Polygon:" + var, "repr", tier))
     for fn in ("gsd_missing_type_raises", "gsd_unknown_type_raises", "gsd_dispatch_classes", "to_json_exact_keys", "to_json_unknown_attribute"):
         obs.append(("C19/E1." + fn, (lambda fn=fn: run_crosshair("C19/E1." + fn, "C19_dispatch.py", fn, timeout_s=(40 if tier == "quick" else 120),
                                                                    bounds="CrossHair: symbolic str / dict keys / attribute lists, per-condition timeout"))))
